@@ -111,7 +111,11 @@ func genSubst(kind eng.HintKind) *rapid.Generator[eng.Subst] {
 			case 0, 1:
 				return eng.Subst{Strategy: "wrap", K: small()}
 			case 2:
-				return eng.Subst{Strategy: "shift", K: small()}
+				k := small()
+				if rapid.Bool().Draw(t, "negative") {
+					k.Neg(k) // (q + j, rem - j*p): a remainder that is negative over the integers, r - (j*p - rem) in the field
+				}
+				return eng.Subst{Strategy: "shift", K: k}
 			case 3:
 				return eng.Subst{Strategy: "solve", Val: bu(genGL().Draw(t, "rem"))}
 			default:
@@ -129,7 +133,11 @@ func genSubst(kind eng.HintKind) *rapid.Generator[eng.Subst] {
 		case eng.HintInverse:
 			switch rapid.IntRange(0, 2).Draw(t, "strategy") {
 			case 0:
-				return eng.Subst{Strategy: "invp", K: small()}
+				k := small()
+				if rapid.Bool().Draw(t, "negative") {
+					k.Neg(k)
+				}
+				return eng.Subst{Strategy: "invp", K: k}
 			case 1:
 				return eng.Subst{Strategy: "set", Vals: []*big.Int{bu(genGL().Draw(t, "inv"))}}
 			default:
@@ -146,7 +154,7 @@ func c05Strategies(kind eng.HintKind) []eng.Subst {
 	case eng.HintMulAdd, eng.HintReduce:
 		return []eng.Subst{
 			{Strategy: "wrap", K: big.NewInt(1)}, {Strategy: "wrap", K: big.NewInt(3)},
-			{Strategy: "shift", K: big.NewInt(1)}, {Strategy: "solve", Val: big.NewInt(0)},
+			{Strategy: "shift", K: big.NewInt(1)}, {Strategy: "shift", K: big.NewInt(-1)}, {Strategy: "solve", Val: big.NewInt(0)},
 			{Strategy: "solve", Val: bu(ref.P - 1)}, {Strategy: "solve", Val: bu(0x123456789abcdef)},
 		}
 	case eng.HintSplit:
@@ -156,7 +164,7 @@ func c05Strategies(kind eng.HintKind) []eng.Subst {
 		}
 	case eng.HintInverse:
 		return []eng.Subst{
-			{Strategy: "invp", K: big.NewInt(1)}, {Strategy: "set", Vals: []*big.Int{big.NewInt(0)}}, {Strategy: "set", Vals: []*big.Int{big.NewInt(1)}},
+			{Strategy: "invp", K: big.NewInt(1)}, {Strategy: "invp", K: big.NewInt(-1)}, {Strategy: "set", Vals: []*big.Int{big.NewInt(0)}}, {Strategy: "set", Vals: []*big.Int{big.NewInt(1)}},
 		}
 	}
 	return nil
@@ -377,7 +385,7 @@ func c05Compiled(c c05Case) (bool, bool, bool, string) {
 func TestC05(t *testing.T) {
 	r := rec.New("C05")
 	defer r.Flush()
-	r.Rule("(A) isolated gadgets {MulAdd, Reduce, ReduceWithMaxBits(128), RangeCheck, Inverse, MulExtension, InverseExtension, full Poseidon permutation} on rapid-generated operands (edge-heavy), one hint call chosen uniformly among the gadget's dynamic hint calls, replaced by a generated dishonest tuple: (X+k*r) div/mod p, (q-j, rem+j*p), field-solved quotient for a drawn remainder, shifted / field-solved limb pairs, inverse+k*p, arbitrary; engine native+plain and compiled R1CS/SCS via solver.OverrideHint.  (B) whole verifier (A1/k=1..2, B1/k=1): every static hint site group (hint kind + 3 innermost repo frames) x fixed strategy list x first/middle/last dynamic occurrence.  Oracle: a substituted tuple that differs from the honest one (mod r) must be REJECTed -- in (B) by the requesting gadget's own constraints (taint tracking: the failing assertion must have an operand derived from the substituted outputs through arithmetic, bit decomposition, limb splitting, gnark's own hints and at most 2 further MulAdd/Reduce/Inverse hints -- independent of function names and of where the assertion is placed or deferred).  (C) bound monitor over whole-verifier executions: at every equality asserted from package goldilocks both sides have an integer bound < r.  (D) the same monitor (plus the 'honest values fit the enforced quotient width' obligations) over single gate evaluators with rapid-generated gate parameters (all 14 gate types; honest, random and extreme rows; inputs range-checked first as in the verifier).  Trivial = substituted tuple equals the honest tuple; the value returned by Inverse(0) is a documented don't-care (counted, excluded).  Distinct = (site or gadget+operands, hint index, strategy).")
+	r.Rule("(A) isolated gadgets {MulAdd, Reduce, ReduceWithMaxBits(128), RangeCheck, Inverse, MulExtension, InverseExtension, full Poseidon permutation} on rapid-generated operands (edge-heavy), one hint call chosen uniformly among the gadget's dynamic hint calls, replaced by a generated dishonest tuple: (X+k*r) div/mod p, (q-j, rem+j*p) for positive and negative j, field-solved quotient for a drawn remainder, shifted / field-solved limb pairs, inverse+k*p, arbitrary; engine native+plain and compiled R1CS/SCS via solver.OverrideHint.  (B) whole verifier (A1/k=1..2, B1/k=1): every static hint site group (hint kind + 3 innermost repo frames) x fixed strategy list x first/middle/last dynamic occurrence.  Oracle: a substituted tuple that differs from the honest one (mod r) must be REJECTed -- in (B) by the requesting gadget's own constraints (taint tracking: the failing assertion must have an operand derived from the substituted outputs through arithmetic, bit decomposition, limb splitting, gnark's own hints and at most 2 further MulAdd/Reduce/Inverse hints -- independent of function names and of where the assertion is placed or deferred).  (C) bound monitor over whole-verifier executions: at every equality asserted from package goldilocks both sides have an integer bound < r.  (D) the same monitor (plus the 'honest values fit the enforced quotient width' obligations) over single gate evaluators with rapid-generated gate parameters (all 14 gate types; honest, random and extreme rows; inputs range-checked first as in the verifier).  Trivial = substituted tuple equals the honest tuple; the value returned by Inverse(0) is a documented don't-care (counted, excluded).  Distinct = (site or gadget+operands, hint index, strategy).")
 	r.Assume("engine native flavour has exact range-check semantics (C06)", "interval transfer functions of the bound monitor", "control flow of Define is data independent, so dynamic hint indices are stable across runs of one shape")
 
 	var rp c05Case
